@@ -221,7 +221,8 @@ def generate(seed, tier, batch):
     if backend == "gaussian" and r.random() < 0.2 and not has_meas and nseg == 1:
         # gaussian_unitary needs numbers at compile time: the documented use is bind first, then compile
         how = {"mode": "compile", "compiler": "gaussian_unitary", "optimize": False, "bind_first": True}
-    script = {"backend": backend, "n": n, "segs": segs, "bind": bind, "tape": tape, "how": how, "cutoff": 6, "foreign": [], "misuse": None}
+    script = {"backend": backend, "n": n, "segs": segs, "bind": bind, "tape": tape, "how": how, "cutoff": 6, "foreign": [], "misuse": None,
+              "pure": r.random() < 0.7}
     if batch == "misuse":
         script["misuse"] = {"kind": r.choice(["use_before_measure", "use_before_measure_rerun", "unbound", "unknown_name", "unbound_one_of_many", "foreign_param_object", "rebind", "rebind"]),
                             "mode": r.randrange(n), "pick": r.random()}
@@ -347,7 +348,7 @@ def execute(script, w):
     fallback = SeededOutcomes(1, w)
     tape = Tape(script, w, fallback)
     simenv = SimEnv(w, fallback, FaultPlan(), on_call=tape.on_call)
-    opts = {"cutoff_dim": script["cutoff"]} if backend == "fock" else {}
+    opts = {"cutoff_dim": script["cutoff"], "pure": script.get("pure", True)} if backend == "fock" else {}
     how = script["how"]
     nontrivial = any(is_sym(e) for sp in script["segs"] for o in sp["ops"] for e in o.get("p", []))
 
